@@ -537,7 +537,7 @@ impl Memfs {
     pub(crate) fn _is_dir<T: AsRef<Path>>(&self, guard: &MemfsGuard, path: T) -> bool {
         let abs = unwrap_or_false!(self._abs(guard, path));
         match guard.get_entry(&abs) {
-            Some(entry) => entry.is_dir(),
+            Some(entry) => entry.is_dir() && !entry.is_symlink(),
             None => false,
         }
     }
@@ -1312,7 +1312,7 @@ impl VirtualFileSystem for Memfs {
         let guard = self.read_guard();
         let abs = unwrap_or_false!(self._abs(&guard, path));
         match guard.get_entry(&abs) {
-            Some(entry) => entry.is_file(),
+            Some(entry) => entry.is_file() && !entry.is_symlink(),
             None => false,
         }
     }
